@@ -1,9 +1,9 @@
 package rules
 
 import (
-	"sort"
 	"fmt"
 	"go/types"
+	"sort"
 	"strings"
 
 	"golang.org/x/tools/go/ssa"
@@ -35,7 +35,7 @@ var specWidths = map[string]string{
 	"encrypted_leaseset.EncryptedLeaseSet.sigType": "16", "encrypted_leaseset.EncryptedLeaseSet.published": "32",
 	"encrypted_leaseset.EncryptedLeaseSet.expires": "16", "encrypted_leaseset.EncryptedLeaseSet.flags": "16",
 	"encrypted_leaseset.EncryptedLeaseSet.innerLength": "16",
-	"offline_signature.OfflineSignature.expires": "32", "offline_signature.OfflineSignature.sigtype": "16",
+	"offline_signature.OfflineSignature.expires":       "32", "offline_signature.OfflineSignature.sigtype": "16",
 }
 
 // specConstants: (package, name) -> value.
@@ -122,14 +122,20 @@ func C02(p *an.Prog, r *an.Report) {
 				break
 			}
 		}
-		pOrder, posOf, ties := parAssignOrder(p, parser, spec)
-		if directInputSteps(parser, posOf) >= 2 {
-			r.Ob("C02.L1", wp.key+"/parser-order", p.FnPos(parser), an.Discharged, "random-access parser: its offsets are decided by C01.R5 (key-block layout) instead of step order").Nontrivial = false
-		} else if len(ties) > 0 || len(pOrder) != len(spec) {
-			r.Ob("C02.L1", wp.key+"/parser-order", p.FnPos(parser), an.Undecided, "the parser's field order could not be extracted", "order: "+strings.Join(pOrder, ","), "ties: "+strings.Join(ties, " "))
-		} else {
-			r.Check(strings.Join(pOrder, ",") == strings.Join(spec, ","), "C02.L1", wp.key+"/parser-order", p.FnPos(parser),
-				"the parser reads the fields in the specified wire order", "specified: "+strings.Join(spec, ","), "parser: "+strings.Join(pOrder, ","))
+		for vi, po := range parAssignOrders(p, parser, spec) {
+			pOrder, posOf, ties := po.order, po.pos, po.ties
+			key := wp.key + "/parser-order"
+			if vi > 0 {
+				key = fmt.Sprintf("%s/parser-order#%d", wp.key, vi+1)
+			}
+			if directInputSteps(parser, posOf) >= 2 {
+				r.Ob("C02.L1", key, p.FnPos(parser), an.Discharged, "random-access parser: its offsets are decided by C01.R5 (key-block layout) instead of step order").Nontrivial = false
+			} else if len(ties) > 0 || len(pOrder) != len(spec) {
+				r.Ob("C02.L1", key, p.FnPos(parser), an.Undecided, "the parser's field order could not be extracted", "order: "+strings.Join(pOrder, ","), "ties: "+strings.Join(ties, " "))
+			} else {
+				r.Check(strings.Join(pOrder, ",") == strings.Join(spec, ","), "C02.L1", key, p.FnPos(parser),
+					"the parser reads the fields in the specified wire order", "specified: "+strings.Join(spec, ","), "parser: "+strings.Join(pOrder, ","))
+			}
 		}
 	}
 	r.Floor("structures_checked_against_layout_table", checked, 8)
@@ -180,7 +186,7 @@ func C02(p *an.Prog, r *an.Report) {
 	c02Counts(p, r)
 	c02SigTypeSource(p, r, "C02.L5")
 	c01DistinctElements(p, r, "C02.L7") // a list of N encoded elements is read as N distinct elements
-	c11Threshold(p, r) // L6 (same rule as C11.M5): every well-formed final pair, down to 4 bytes, is read
+	c11Threshold(p, r)                  // L6 (same rule as C11.M5): every well-formed final pair, down to 4 bytes, is read
 
 	// L3
 	ns := mappingSiteRule(p, r, "C02.L3")
@@ -207,7 +213,6 @@ func c02Counts(p *an.Prog, r *an.Report) {
 	}
 	_ = ssa.Value(nil)
 }
-
 
 // c02SigTypeSource (L5): a LeaseSet2 / MetaLeaseSet / EncryptedLeaseSet ends with a signature whose
 // type — and hence length — is the offline signature's *transient* signing type when offline keys
@@ -278,7 +283,6 @@ func c02SigTypeSource(p *an.Prog, r *an.Report, rule string) {
 		r.Fail(rule+": only %d signature construction sites found in the offline-capable structures (expected at least 4)", n)
 	}
 }
-
 
 // specFieldAlias matches the field names of the layout table with the struct. A table name the
 // struct no longer has is matched to the one struct field that is not named by the table and is
